@@ -15,11 +15,15 @@ use super::TaskExtra;
 macro_rules! dispatch_event {
     ($fn:ident, $event_name:ident, $(&$item:ident), +) => {
         let handles = $fn.$event_name.clone();
+        #[cfg(feature = "verif")]
+        crate::verif::inc();
         Handle::current().spawn(async move {
             let handlers = handles.read().unwrap();
             for handle in handlers.iter() {
                 (handle)($(&$item),+);
             }
+            #[cfg(feature = "verif")]
+            crate::verif::dec();
         });
     };
 }
@@ -27,11 +31,15 @@ macro_rules! dispatch_event {
 macro_rules! dispatch_key_event {
     ($fn:ident, $event_name:ident, $(&$item:ident), +) => {
         let handles = $fn.$event_name.clone();
+        #[cfg(feature = "verif")]
+        crate::verif::inc();
         Handle::current().spawn(async move {
             let handlers = handles.read().unwrap();
             for (_, handle) in handlers.iter() {
                 (handle)($(&$item),+);
             }
+            #[cfg(feature = "verif")]
+            crate::verif::dec();
         });
     };
 }
